@@ -166,7 +166,7 @@ PROPS = {
     },
     "C10": {
         "controls": ["PUR-3"],
-        "rules": [("PUR-3", pur.pur3), ("PUR-4", pur.pur4), ("PUR-5", pur.pur5), ("RT-3", r5.rt3), ("RT-4", r5.rt4), ("PUR-6", r5.pur6), ("PUR-7", r5.pur7)],
+        "rules": [("PUR-3", pur.pur3), ("PUR-4", pur.pur4), ("PUR-5", pur.pur5), ("RT-3", r5.rt3), ("RT-4", r5.rt4), ("PUR-6", r5.pur6), ("PUR-7", r5.pur7), ("PUR-8", r5.pur8)],
         "explanation": "Decides the statelessness / grouping clause of C10: applying a rule list is a left fold `word = rule.apply(word)?` over groups and rules in "
                        "order with no early exit, no adaptor and no other loop-carried state (PUR-5); the step depends only on its arguments: no global state "
                        "(PUR-3), binding tables fresh or reset (PUR-4). Hence regrouping and empty groups cannot matter.",
@@ -175,7 +175,7 @@ PROPS = {
     },
     "C11": {
         "controls": ["PUR-1", "PUR-3"],
-        "rules": [("PUR-1", pur.pur1), ("PUR-3", pur.pur3), ("PUR-4", pur.pur4), ("PUR-5", pur.pur5), ("PUR-6", r5.pur6), ("PUR-7", r5.pur7)],
+        "rules": [("PUR-1", pur.pur1), ("PUR-3", pur.pur3), ("PUR-4", pur.pur4), ("PUR-5", pur.pur5), ("PUR-6", r5.pur6), ("PUR-7", r5.pur7), ("PUR-8", r5.pur8)],
         "explanation": "Decides C11 structurally: one result per input line in input order (apply_rule_groups pushes exactly one word per word and one phrase per line, "
                        "iterating front to back with no break/continue/adaptor; parse_phrases / phrases_to_string use only order- and count-preserving adaptors, "
                        "split(' ') / + \" \" / one trim_end); no cross-word channel: the per-word loop starts from word.clone() and carries only the word, no "
@@ -195,7 +195,7 @@ PROPS = {
         "assumptions": ["formatters keep binding the raw payload fields under the names group/line/kind"],
     },
     "C12": {
-        "rules": [("TAB-4", tab2.tab4), ("SHR-1", tab2.shr1), ("SHR-3", tab2.shr3), ("FLW-13", r5.flw13), ("ENV-5", r5.env5), ("SHR-5", r5.shr5), ("VAR-4", r5.var4)],
+        "rules": [("TAB-4", tab2.tab4), ("SHR-1", tab2.shr1), ("SHR-3", tab2.shr3), ("FLW-13", r5.flw13), ("ENV-5", r5.env5), ("SHR-5", r5.shr5), ("VAR-4", r5.var4), ("SHR-6", r5.shr6)],
         "explanation": "Decides three table/shape clauses of C12. SHR-3: Parser::get_spec_env returns exactly two items, each an Environment with one Env: the first `before = X, after = []`, the second `before = [], after = X` passed through `rev()` (so Rule::split_into_subrules makes two sub-rules, `X_` then `_X` mirrored). SHR-1: in Rule::split_into_subrules each of the four lists (input, output, context, except) is indexed under a length test of that same list (a singleton is shared, otherwise element i) — necessary for 'a condensed rule behaves as its sub-rules'. TAB-4: the letter -> matrix table of Parser::group_to_matrix equals its "
                        "sibling in AliasParser and the table in doc/doc.md § Groupings (feature names resolved through the lexer's own synonym table).",
         "does_not_decide": "that the sub-rules behave as separate rules, optional bounds and `&` expansion (equalities between two interpreter runs).",
@@ -213,7 +213,7 @@ PROPS = {
         "assumptions": ["doc/doc.md keeps its '### Inbuilt Aliases' code blocks", "a helper that tests both members of a pair satisfies SYN-1 by itself"],
     },
     "C03": {
-        "rules": [("ENV-1", env.env1), ("ENV-2", env.env2), ("ENV-3", env.env3), ("FLW-12", flw.flw12), ("PAN-5", pan.pan5), ("FLW-13", r5.flw13), ("ENV-5", r5.env5), ("ENV-6", r5.env6), ("ENV-7", r5.env7), ("ENV-8", r5.env8), ("ENV-9", r5.env9), ("FLW-16", r5.flw16)],
+        "rules": [("ENV-1", env.env1), ("ENV-2", env.env2), ("ENV-3", env.env3), ("FLW-12", flw.flw12), ("PAN-5", pan.pan5), ("FLW-13", r5.flw13), ("ENV-5", r5.env5), ("ENV-6", r5.env6), ("ENV-7", r5.env7), ("ENV-8", r5.env8), ("ENV-9", r5.env9), ("FLW-16", r5.flw16), ("PUR-8", r5.pur8)],
         "explanation": "Decides the plumbing clauses of C03 ('whose left neighbours match the context and do not match the exception', 'scanning left to right'), not the rewrite semantics. "
                        "ENV-1: in SubRule::match_contexts_and_exceptions, for contexts and for exceptions alike, the before-half is a reversed copy of the pair's first element, matched by "
                        "match_before_env on `word.reverse()` at `start_pos.reversed(word)`; the after-half is the pair's second element, matched by match_after_env on the word at end_pos; "
